@@ -260,3 +260,16 @@ func NewFile(ctx context.Context, value ros.File, path string) *File {
 	f.waitToClose()
 	return f
 }
+
+// NewHostFile wraps a stream that belongs to the host rather than to the
+// evaluation, such as one of the process's standard streams. Unlike a file
+// opened by a script, it is not closed when the evaluation's context ends:
+// the host and every other evaluation keep using it.
+func NewHostFile(ctx context.Context, value ros.File, path string) *File {
+	return &File{
+		ctx:    ctx,
+		value:  value,
+		path:   path,
+		closed: make(chan bool),
+	}
+}
